@@ -44,6 +44,11 @@ def _modname(name: str) -> str:
 
 
 def check(chk):
+    # ExtendedEOF(embedding=1) is EOF: the inner EOF must not apply standardisation / latitude weights a second time
+    # (shared with C01's wiring rule)
+    from . import c01 as _c01
+    from .c01 import _Relabel as _RL
+    _c01._extended(_RL(chk, "WIRE.extended", "SPECIAL.embed.inner"))
     pm = chk.pm
     _alpha(chk)
     _forward(chk)
